@@ -114,9 +114,10 @@ def run(ctx):
             after = lambda i: [e for k, e in times if k > widx[i] and (i + 1 == len(widx) or k < widx[i + 1])]
             ok = False
             for bb_, c in p.conds:
-                if not (c and c[0] == "scalar"):
+                # (a comparison, or the outcome of a checked subtraction: `remaining.checked_sub(spent)` being None is the decision)
+                if not (c and (c[0] == "scalar" or (c[0] == "variant" and len(c) > 3))):
                     continue
-                v = c[1]
+                v = c[1] if c[0] == "scalar" else c[3]
                 if not any(absint.mentions_call(v, e[4]) for e in after(len(widx) - 1)) and not (before_first and any(absint.mentions_call(v, e[4]) for k, e in times if k > widx[-1])):
                     continue        # not a decision taken after the last wake-up
                 whole = all(any(absint.mentions_call(v, e[4]) for e in after(i)) for i in range(len(widx)))
